@@ -209,9 +209,14 @@ def ctorLine : P String := do
     | none => v
     | some p =>
         if !check then v else
-        let v := v.failIf (!(inUnitB p.disc)) s!"{compB} {discKind p.disc} {p.disc}"
-        let v := v.failIf (!(rowsDistB p.T)) s!"{compB} stored_row_not_distribution"
-        let v := v.failIf (pomdp && !(rowsDistB p.Om)) s!"{compO} stored_row_not_distribution"
+        -- the 3D-table and converting constructors go through setDiscount / the 3D setters: attribute to those
+        let viaSetters := which == "c3d" || which == "copy"
+        let compD := if viaSetters then baseCls kb ++ "::setDiscount" else compB
+        let compT := if which == "c3d" then baseCls kb ++ "::setTransitionFunction3D" else compB
+        let compOm := if which == "c3d" then obsCls ko ++ "::setObservationFunction3D" else compO
+        let v := v.failIf (!(inUnitB p.disc)) s!"{compD} {discKind p.disc} {p.disc}"
+        let v := v.failIf (!(rowsDistB p.T)) s!"{compT} stored_row_not_distribution"
+        let v := v.failIf (pomdp && !(rowsDistB p.Om)) s!"{compOm} stored_row_not_distribution"
         match srcInfo with
         | none => v
         | some sp =>
